@@ -41,6 +41,7 @@ inductive It where
   | pushNew (f : Frame) (src : It) (rest : List Dir)
   | stripNew (e : Option Expr) (src : It)
   | stripRun (prev : TEv) (src : It)     -- StripDirective._generate with its one-event look-behind
+  | attrsNew (spec : AttrsSpec) (src : It)   -- AttrsDirective._generate, not started
   | macroNew (m : Macro) (arg : Option Val)   -- the generator a `py:def` function returned, not started
   | dead
   deriving Repr, Inhabited
@@ -53,6 +54,134 @@ inductive PullOut where
 
 def sDomain : Str := ['_', 'i', '1', '8', 'n', '.', 'd', 'o', 'm', 'a', 'i', 'n']
 def sContext : Str := ['_', 'i', '1', '8', 'n', '.', 'c', 'o', 'n', 't', 'e', 'x', 't']
+
+/-! ## attribute values: interpolation (`_flatten` on a START event) and `py:attrs` -/
+
+/-- the TEXT data the nested `_flatten(value, ctxt)` yields for the list of an interpolated attribute
+    value (a list of TEXT and EXPR events): `None` results are skipped, an iterable goes through `_ensure` -/
+def interpParts (fs : List Frame) : List TEv → Except Err (List Str)
+  | [] => .ok []
+  | t :: ts =>
+    let here : Except Err (List Str) :=
+      match t with
+      | .out (.text s _) => .ok [s]
+      | .expr e =>
+        (match eval fs e with
+         | .error er => .error er
+         | .ok (.atom .none) => .ok []
+         | .ok (.atom a) => .ok [a.text]
+         | .ok (.list xs) => .ok (xs.map Atom.text)
+         | .ok _ => .error .unmodelled)
+      | _ => .error .unmodelled
+    match here with
+    | .error er => .error er
+    | .ok a =>
+      match interpParts fs ts with
+      | .error er => .error er
+      | .ok b => .ok (a ++ b)
+
+/-- the loop over `attrs` in `_flatten`: `if not values: continue` drops the attribute, otherwise
+    `''.join(values)` -/
+def evalAttrs (h ph : Heap) (fs : List Frame) : List (QName × AVal) → Except Err AttrList
+  | [] => .ok []
+  | (n, .plain s) :: rest =>
+    (match evalAttrs h ph fs rest with
+     | .error er => .error er
+     | .ok as => .ok ((n, s) :: as))
+  | (n, .interp r) :: rest =>
+    match readEvs h ph r with
+    | none => .error .unmodelled
+    | some parts =>
+      match interpParts fs parts with
+      | .error er => .error er
+      | .ok vals =>
+        match evalAttrs h ph fs rest with
+        | .error er => .error er
+        | .ok as => .ok (if vals.isEmpty then as else (n, vals.flatten) :: as)
+
+/-- characters `str.strip()` removes, as far as the model goes (a text with a character outside ASCII is
+    outside the model) -/
+def isStripSpace (c : Char) : Bool :=
+  c = ' ' || (9 ≤ c.toNat && c.toNat ≤ 13) || (28 ≤ c.toNat && c.toNat ≤ 31)
+
+/-- `v is not None and str(v).strip() or None` -/
+def attrText : Val → Except Err (Option Str)
+  | .atom .none => .ok none
+  | .atom a =>
+    if a.text.all (fun c => c.toNat < 128) then
+      let s := Genshi.Str.stripBy isStripSpace a.text
+      .ok (if s.isEmpty then none else some s)
+    else .error .unmodelled
+  | _ => .error .unmodelled
+
+/-- the values of a dict / list display, left to right -/
+def evalEntries (fs : List Frame) : List (Str × Expr) → Except Err (List (Str × Val))
+  | [] => .ok []
+  | (k, e) :: rest =>
+    match eval fs e with
+    | .error er => .error er
+    | .ok v =>
+      match evalEntries fs rest with
+      | .error er => .error er
+      | .ok vs => .ok ((k, v) :: vs)
+
+def entryTexts : List (Str × Val) → Except Err (List (QName × Option Str))
+  | [] => .ok []
+  | (k, v) :: rest =>
+    match attrText v with
+    | .error er => .error er
+    | .ok t =>
+      match entryTexts rest with
+      | .error er => .error er
+      | .ok ts => .ok ((QName.plain k, t) :: ts)
+
+/-- `attrs = _eval_expr(self.expr, …)`, then (`if attrs:`) the list of `(QName(n), text or None)`;
+    `none`: the value is false, the START event stays as it is -/
+def evalAttrsSpec (fs : List Frame) : AttrsSpec → Except Err (Option (List (QName × Option Str)))
+  | .dict kvs =>
+    (match evalEntries fs kvs with
+     | .error er => .error er
+     | .ok vs =>
+       -- a dict: a repeated key keeps its first position and gets the last value
+       let d : Frame := vs.foldl (fun acc (kv : Str × Val) => Frame.set acc kv.1 kv.2) []
+       if d.isEmpty then .ok none else (entryTexts d).map some)
+  | .pairs kvs =>
+    (match evalEntries fs kvs with
+     | .error er => .error er
+     | .ok vs => if vs.isEmpty then .ok none else (entryTexts vs).map some)
+  | .expr e =>
+    match eval fs e with
+    | .error er => .error er
+    | .ok v =>
+      if !v.truthy then .ok none
+      else match v with
+        | .atom _ => .error .attribute        -- `attrs.items()` on a number / string
+        | _ => .error .unmodelled
+
+/-- `Attrs.__or__`: names given `None` are removed, names already present get the (last) new value in
+    place, the others are appended (a repeated new name keeps its first position, last value) -/
+def attrsOr (self : List (QName × AVal)) (new : List (QName × Option Str)) : List (QName × AVal) :=
+  let inSelf (n : QName) : Bool := self.any (fun p => p.1 == n)
+  let removed (n : QName) : Bool := new.any (fun p => p.1 == n && p.2.isNone)
+  let replace (n : QName) : Option Str :=
+    (new.reverse.find? (fun p => p.1 == n && p.2.isSome)).bind (·.2)
+  let added : List (QName × AVal) := new.foldl (fun acc p =>
+      match p.2 with
+      | none => acc
+      | some v =>
+        if inSelf p.1 || removed p.1 then acc
+        else if acc.any (fun q => q.1 == p.1) then acc.map (fun q => if q.1 == p.1 then (q.1, .plain v) else q)
+        else acc ++ [(p.1, .plain v)]) []
+  (self.filter (fun p => !removed p.1)).map (fun p =>
+      match replace p.1 with
+      | some v => (p.1, AVal.plain v)
+      | none => p) ++ added
+
+/-- the START data of a template event, if it is one -/
+def startOf : TEv → Option (QName × List (QName × AVal))
+  | .out (.start tag attrs) => some (tag, attrs.map fun p => (p.1, .plain p.2))
+  | .startI tag attrs => some (tag, attrs)
+  | _ => none
 
 /-! ## `_apply_directives`: the part of each directive that runs when it is applied -/
 
@@ -108,6 +237,7 @@ def applyDirs (h ph : Heap) (c : Ctx) (stream : It) : List Dir → Except Err (C
         if info.matched then .ok (c, .lst [])
         else applyDirs h ph { c with choice := { info with matched := true } :: more } stream rest
     | .pyStrip e => applyDirs h ph c (.stripNew e stream) rest
+    | .pyAttrs spec => applyDirs h ph c (.attrsNew spec stream) rest
     | .pyDef name params =>
       -- DefDirective.__call__: `stream = list(stream)`; the function goes into the BOTTOM frame; nothing is output
       match remaining h ph stream with
@@ -273,6 +403,21 @@ def pull (h : Heap) : Nat → St → It → PullRes
       | .item t => ⟨r.st, .stripRun t r.it, .item p⟩
       | .err er => ⟨r.st, .dead, .err er⟩
       | .done => ⟨r.st, .dead, .done⟩
+    | .attrsNew spec src =>
+      -- `kind, data, pos = next(stream)`; the expression is evaluated only for a START; afterwards the
+      -- generator relays the stream
+      let r := pull h fuel st src
+      match r.out with
+      | .err er => ⟨r.st, .dead, .err er⟩
+      | .done => ⟨r.st, .dead, .err .stopIter⟩
+      | .item t =>
+        match startOf t with
+        | none => ⟨r.st, r.it, .item t⟩
+        | some (tag, attrib) =>
+          match evalAttrsSpec r.st.ctx.frames spec with
+          | .error er => ⟨r.st, .dead, .err er⟩
+          | .ok none => ⟨r.st, r.it, .item t⟩
+          | .ok (some new) => ⟨r.st, r.it, .item (.startI tag (attrsOr attrib new))⟩
 
 /-! ## `Translator.__call__` -/
 
@@ -400,6 +545,12 @@ def transEvs (v : Variant) : Nat → Heap → St → List TEv → TRes
       | none =>
         let rest := transEvs v fuel r.h { r.st with ctx := popN r.pops r.st.ctx } ts
         ⟨rest.h, rest.st, r.ev :: rest.out, rest.err⟩
+    | .startI _ attrs =>
+      -- `newval = list(self(_ensure(value), ctxt, translate_text=False))` for every interpolated value: a nested
+      -- call whose prologue stores the eight functions in `frames[0]`; identity catalogue: the events stay
+      let st1 : St := if attrs.any (fun p => p.2.isInterp) then { st with ctx := setI18nKeys st.ctx } else st
+      let rest := transEvs v fuel h st1 ts
+      ⟨rest.h, rest.st, t :: rest.out, rest.err⟩
     | _ =>
       let rest := transEvs v fuel h st ts
       ⟨rest.h, rest.st, t :: rest.out, rest.err⟩
@@ -441,6 +592,9 @@ def pullSource (v : Variant) (fuel : Nat) (h : Heap) (st : St) : Src → SrcRes
         match r.err with
         | some e => ⟨r.h, r.st, .trans root (i + 1) true 0, .err e⟩
         | none => ⟨r.h, r.st, .trans root (i + 1) true r.pops, .item r.ev⟩
+      | some (.startI tag attrs) =>
+        let st2 : St := if attrs.any (fun p => p.2.isInterp) then { st1 with ctx := setI18nKeys st1.ctx } else st1
+        ⟨h, st2, .trans root (i + 1) true 0, .item (.startI tag attrs)⟩
       | some t => ⟨h, st1, .trans root (i + 1) true 0, .item t⟩
 
 /-! ## `_flatten` -/
@@ -490,6 +644,10 @@ def flat (v : Variant) : Nat → Heap → St → Src → List It → FlatRes
       | .out e => ⟨h1, st1, src1, stack1, .ev e⟩
       | .other => ⟨h1, st1, src1, stack1, .err .unmodelled⟩
       | .incl ti fb => ⟨h1, st1, src1, stack1, .incl ti fb⟩
+      | .startI tag attrs =>
+        match evalAttrs h1 st1.ph st1.ctx.frames attrs with
+        | .error er => ⟨h1, st1, src1, stack1, .err er⟩
+        | .ok as => ⟨h1, st1, src1, stack1, .ev (.start tag as)⟩
       | .expr ex =>
         match eval st1.ctx.frames ex with
         | .error er => ⟨h1, st1, src1, stack1, .err er⟩
